@@ -604,12 +604,39 @@ func (w *worker) saveSeedCache(sc *seedCache) {
 // aligned, non-empty and shorter than the seed; pre-order, smallest ranks first, at
 // most max. Computed per run from the live decoders (a decoder that fails on its own
 // seed yields the ranges of the partial tree).
-func structRanges(s *Seed, max int) [][2]int {
+func structRanges(s *Seed, max, maxLeaves int) (ranges [][2]int, allLeaves [][2]int) {
 	res := corpus.Decode(s.Data, s.Format, false, 20*time.Second)
 	if res.Value == nil {
-		return nil
+		return nil, nil
 	}
 	root := res.Value
+	// every leaf of the seed's own buffer that is a whole number of bytes of at most 64
+	lseen := map[[2]int]bool{}
+	_ = root.WalkPreOrder(func(v *decode.Value, _ *decode.Value, _ int, _ int) error {
+		if _, ok := v.V.(*decode.Compound); ok || len(allLeaves) >= maxLeaves {
+			return nil
+		}
+		top := v
+		for top.Parent != nil && !top.IsRoot {
+			top = top.Parent
+		}
+		if top != root {
+			return nil
+		}
+		if sc, ok := v.V.(scalar.Scalarable); ok && sc.ScalarFlags().IsSynthetic() {
+			return nil
+		}
+		rg := v.Range
+		if rg.Start%8 != 0 || rg.Len%8 != 0 || rg.Len == 0 || rg.Len > 64*8 {
+			return nil
+		}
+		k := [2]int{int(rg.Start / 8), int(rg.Len / 8)}
+		if !lseen[k] {
+			lseen[k] = true
+			allLeaves = append(allLeaves, k)
+		}
+		return nil
+	})
 	seen := map[[2]int]bool{}
 	var out [][2]int
 	take := func(v *decode.Value) {
@@ -652,5 +679,5 @@ func structRanges(s *Seed, max int) [][2]int {
 		}
 		take(v)
 	}
-	return out
+	return out, allLeaves
 }
